@@ -64,12 +64,64 @@ def dro_case(draw):
         g = sorted(draw(st.sets(st.sampled_from(rem), min_size=1, max_size=len(rem))))
         calls.append(g)
         rem = [s for s in rem if s not in g]
-    return {'mode': 'dro', 'S': S, 'n': n, 'nz': nz, 'zhat': zh, 'calls': calls,
+    # a second decision v, event-wise (own partition) and affine in z[0], with a rule that differs between events and is
+    # identified: v >= p_i*z[0] + q_i (two lines with a kink) on boxes that lie on different sides of the kink, E(z[0]) fixed
+    rem2 = list(range(S))
+    calls2 = []
+    for _ in range(draw(st.integers(0, S))):
+        if not rem2:
+            break
+        g = sorted(draw(st.sets(st.sampled_from(rem2), min_size=1, max_size=min(2, len(rem2)))))
+        calls2.append(g)
+        rem2 = [s for s in rem2 if s not in g]
+    vrule = {'calls': calls2, 'lines': [[float(draw(st.integers(-3, -1))), float(draw(st.integers(-2, 2)))],
+                                        [float(draw(st.integers(1, 3))), float(draw(st.integers(-2, 2)))]],
+             'mu': [draw(st.sampled_from([-0.5, 0.0, 0.5])) for _ in range(S)]} if draw(st.integers(0, 2)) > 0 else None
+    return {'mode': 'dro', 'S': S, 'n': n, 'nz': nz, 'zhat': zh, 'calls': calls, 'vrule': vrule,
             'labels': draw(st.sampled_from(['int', 'str', 'rev'])),
             'G': [detmodel._row(draw, nz) for _ in range(n)], 'h': [float(draw(st.integers(-2, 2))) for _ in range(n)],
             'sense': draw(st.sampled_from(['min', 'max'])), 'zval': [draw(st.sampled_from(VALS)) for _ in range(nz)],
             'affine': draw(st.booleans()), 'radius': draw(st.sampled_from([0.5, 0.5, 1.0])), 'atom': draw(st.sampled_from(['norm2', 'norm1', 'norminf', 'sumsqr', 'abs', 'square', 'exp'])),
             'mult': draw(st.sampled_from([1.0, 2.0, -1.0])), 'off': draw(st.sampled_from([0.0, 1.5]))}
+
+
+def v_reference(case, zh, rad, sg):
+    """per event of v's partition: the affine rule a + B*z0 that majorises (minorises for max) the two lines on the boxes of the
+    event's scenarios and has the least (greatest) expected value at the fixed means; solved as a small LP, uniqueness of the
+    rule checked by minimising and maximising the slope over the optimal face"""
+    from scipy.optimize import linprog
+    S = case['S']
+    vr = case['vrule']
+    rem = list(range(S))
+    ev = []
+    for g in vr['calls']:
+        rem = [s for s in rem if s not in g]
+        ev.append(list(g))
+    ev = ([rem] if rem else []) + ev
+    a_out, B_out = np.zeros(S), np.zeros(S)
+    total, unique = 0.0, True
+    for g in ev:
+        A, b = [], []
+        for s in g:
+            for z0 in (zh[s][0] - rad, zh[s][0] + rad):
+                for (pp, qq) in vr['lines']:
+                    # sg=+1: a + B z0 >= pp z0 + qq ; sg=-1: a + B z0 <= -pp z0 - qq
+                    A.append([-sg, -sg * z0]); b.append(-(pp * z0 + qq))
+        mus = [zh[s][0] + rad * vr['mu'][s] for s in g]
+        cost = np.array([sg * len(g) / S, sg * sum(mus) / S])
+        r = linprog(cost, A_ub=np.array(A), b_ub=np.array(b), bounds=[(None, None)] * 2, method='highs')
+        if r.status != 0:
+            return None
+        lo = linprog([0, 1], A_ub=np.array(A + [list(cost)]), b_ub=np.array(b + [r.fun + 1e-9]), bounds=[(None, None)] * 2, method='highs')
+        hi = linprog([0, -1], A_ub=np.array(A + [list(cost)]), b_ub=np.array(b + [r.fun + 1e-9]), bounds=[(None, None)] * 2, method='highs')
+        if lo.status != 0 or hi.status != 0:
+            return None
+        if abs(lo.x[1] - hi.x[1]) > 1e-6:
+            unique = False
+        total += sg * r.fun
+        for s in g:
+            a_out[s], B_out[s] = r.x[0], r.x[1]
+    return {'value': float(total), 'a': a_out, 'B': B_out, 'unique': unique}
 
 
 @st.composite
@@ -107,6 +159,7 @@ class C12(Prop):
             'evaluation with multipliers +-, offsets and affine addends, model.get() for min and max. (dro) 2-5 scenarios with '
             'int/str/reversed labels, singleton supports, an event-wise decision whose per-event value is known a priori (maximum of '
             'an affine function of the scenario data over the event), partition from a random adapt() sequence, optional affinely '
+            'adaptive second decision with its own partition whose rule differs between events and is identified (reference: a small LP per event with a uniqueness test), optional affinely '
             'adaptive decision pinned by y == Gz + h: get() Series must be indexed by the scenario labels and carry the value of the '
             'scenario\'s event; x() = x.get(); affine, bi-affine (assigned z) and convex expressions evaluated per scenario; '
             'model.get() in the user\'s sense. Oracle: the a-priori values and NumPy. Non-trivial = index query on rank>=1, partial '
@@ -258,11 +311,22 @@ class C12(Prop):
             w.adapt(z)
             m.st(w == G @ z + h)
         sg = 1.0 if case['sense'] == 'min' else -1.0
+        vr = case.get('vrule') if rad else None
+        v = None
+        if vr:
+            v = m.dvar(1)
+            for g in vr['calls']:
+                v.adapt([lab[s] for s in g])
+            v.adapt(z[0])
+            for s in range(S):
+                fs[lab[s]].exptset(E(z[0]) == float(zh[s][0] + rad * vr['mu'][s]))
+            for (pp, qq) in vr['lines']:
+                m.st(v >= pp * z[0] + qq) if case['sense'] == 'min' else m.st(v <= -pp * z[0] - qq)
         if case['sense'] == 'min':
-            m.minsup(E(x.sum()), fs)
+            m.minsup(E(x.sum() + (v.sum() if v is not None else 0)), fs)
             m.st(x >= G @ z + h)
         else:
-            m.maxinf(E(x.sum()), fs)
+            m.maxinf(E(x.sum() + (v.sum() if v is not None else 0)), fs)
             m.st(x <= G @ z + h)
         with quiet():
             m.solve(display=False)
@@ -282,6 +346,13 @@ class C12(Prop):
             for s in g:
                 want[s] = agg
         obj = float(want.sum(axis=1).mean())
+        vexp = None
+        if v is not None:
+            vexp = v_reference(case, zh, rad, sg)
+            if vexp is None:
+                return Outcome.skip('v_reference_failed', labels)
+            obj += vexp['value']
+            labels.append('vrule')
         if abs(m.get() - obj) > 1e-6 * (1 + abs(obj)):
             return Outcome.fail('dro:model.get', 'model.get()=%.9g, expected %.9g' % (m.get(), obj), labels)
 
@@ -332,6 +403,24 @@ class C12(Prop):
             out = per_scen(w(z.assign(zv)), 'w(z.assign)', [G @ zv + h] * S)
             if out:
                 return out
+        if vexp is not None and vexp['unique']:
+            labels.append('vrule_identified')
+            out = per_scen(v.get(), 'v.get() (event-wise affine rule, intercept)', [np.array([vexp['a'][s]]) for s in range(S)])
+            if out:
+                return out
+            slopes = []
+            for s in range(S):
+                row = np.full((1, nz), np.nan)
+                row[0, 0] = vexp['B'][s]
+                slopes.append(row)
+            out = per_scen(v.get(z), 'v.get(z) (event-wise affine rule, slope; NaN off the declared dependency)', slopes)
+            if out:
+                return out
+            out = per_scen(v(z.assign(zv)), 'v(z.assign)', [np.array([vexp['a'][s] + vexp['B'][s] * zv[0]]) for s in range(S)])
+            if out:
+                return out
+            if len(set(np.round(vexp['B'], 6))) > 1:
+                labels.append('vrule_slopes_differ')
         noncontig = any(max(g) - min(g) + 1 != len(g) for g in ev) or [g[0] for g in ev] != sorted(g[0] for g in ev)
         return Outcome.ok(noncontig or len(ev) > 1, labels + (['noncontiguous_or_reordered'] if noncontig else []))
 
